@@ -950,6 +950,33 @@ continued' + b; }"####,
     r####"function z40(a, b) { return `${a}${b}`.concat`${a}` + (a + b)`x`; }"####,
 ];
 
+/// the JS inputs and expected outputs of the repository's own spec files and unit tests (a vendored
+/// snapshot, `tools/harvest_corpus.js`); the tests run each alone, on a fresh rewriter, with one
+/// configuration and no faults - the simulators combine them
+pub fn corpus() -> &'static Vec<String> {
+    static C: std::sync::OnceLock<Vec<String>> = std::sync::OnceLock::new();
+    C.get_or_init(|| {
+        let v: serde_json::Value = serde_json::from_str(include_str!("../../../corpus/snippets.json")).expect("corpus");
+        v.as_array().expect("corpus array").iter().filter_map(|x| x["text"].as_str().map(|s| s.to_string())).collect()
+    })
+}
+
+pub fn gen_corpus(rng: &mut Rng, n: usize) -> String {
+    let c = corpus();
+    let mut s = String::new();
+    for i in 0..n {
+        let t = &c[rng.below(c.len())];
+        // a block keeps `const result` of one snippet from colliding with the next one's
+        match rng.below(4) {
+            0 => s.push_str(t),
+            1 => s.push_str(&format!("function corpus{}(a, b, c) {{\n{}\n}}", i, t)),
+            _ => s.push_str(&format!("{{\n{}\n}}", t)),
+        }
+        s.push('\n');
+    }
+    s
+}
+
 pub fn gen_zoo(rng: &mut Rng, n: usize) -> String {
     let mut s = String::from("function fn0(x) { return x; }\nfunction super_ok(x) { return x; }\nfunction with_ok(x) { return x; }\nfunction* inner(a) { return a; }\nfunction trim(x) { return x; }\nfunction concat(x) { return x; }\nfunction substring(x) { return x; }\nfunction replace(x) { return fn0; }\nfunction slice(x) { return x; }\nfunction tag(s, ...v) { return s.raw.join(''); }\nclass Base { constructor() { this.v = 'base'; } }\nvar x, y = {};\n");
     for _ in 0..n {
